@@ -1141,7 +1141,11 @@ func EvalExpression(exprSrc string, rootValue interface{}, stdout io.Writer) (*C
 	ev.root = rootCell
 	ev.ruleRoot = rootCell
 	cell, err := ev.evalExpr(expr)
-	if err != nil && err != errExit {
+	if err == errExit || err == errNext {
+		// the expression ended itself: there is no value
+		return nil, nil
+	}
+	if err != nil {
 		return nil, err
 	}
 	return cell, nil
@@ -1199,6 +1203,10 @@ func EvalProgram(progSrc string, files []InputFile, rootSelectors []string, stdo
 					cell, err := EvalExpression(rootSelector, rootValue, stdout)
 					if err != nil {
 						return &ev, err
+					}
+					if cell == nil {
+						// the selector executed exit (or next): the run is over
+						return &ev, nil
 					}
 					rootCells = append(rootCells, cell)
 				}
